@@ -4,6 +4,7 @@ import XV.Drv.P2p
 import XV.Drv.QcTree
 import XV.Drv.Sandbox
 import XV.Drv.SpinLock
+import XV.Drv.GovToken
 /-! line-protocol model driver: `xvdriver <engine> < ops.txt > model.out` -/
 def main (args : List String) : IO UInt32 := do
   match args with
@@ -13,4 +14,5 @@ def main (args : List String) : IO UInt32 := do
   | ["qctree"] => XV.Drv.QcTree.run; return 0
   | ["sandbox"] => XV.Drv.Sandbox.run; return 0
   | ["lock"] => XV.Drv.SpinLock.run; return 0
+  | ["gov"] => XV.Drv.GovToken.run; return 0
   | _ => IO.eprintln "usage: xvdriver <engine>"; return 2
